@@ -203,7 +203,9 @@ func headerOK(h string) bool {
 	return strings.TrimSpace(h[i+1:]) != ""
 }
 
-func headerName(h string) string { return strings.ToLower(strings.TrimSpace(h[:strings.Index(h, ":")])) }
+func headerName(h string) string {
+	return strings.ToLower(strings.TrimSpace(h[:strings.Index(h, ":")]))
+}
 
 func (c *SxgCase) version() string {
 	if c.Version == "default" {
